@@ -117,7 +117,7 @@ class ConstraintInfo(ResultField):
         """
         diffs: dict[str, NDArray[np.float64] | None] = {}
 
-        if np.all(np.isfinite(config.variables.lower_bounds)) or np.all(
+        if np.any(np.isfinite(config.variables.lower_bounds)) or np.any(
             np.isfinite(config.variables.upper_bounds)
         ):
             diffs["bound_lower"] = variables - config.variables.lower_bounds
